@@ -94,6 +94,7 @@ fn gen(t: &mut Tape, _tier: Tier) -> Scenario {
     }
     ops.extend_from_slice(&[OP_PEEK, 0, OP_FINISH, 0]);
     sc.note = format!("{}; {} ops", note, ops.len() / 2);
+    opts.wrapper = t.below(2) == 1;
     opts.store(&mut sc);
     sc.set_b("input", input);
     sc.set_l("ops", ops);
